@@ -325,12 +325,14 @@ def rule_embed(ctx, R):
     R.analyse(b.name)
     ok = False
     tys = []
-    for bi, t in b.calls():
-        n = callee_name(t["f"], fb)
-        if n.endswith("Argument::new_debug") or n.endswith("Argument::new_display"):
-            tys.append((n.rsplit("::", 1)[-1], [g for g in t["f"]["gargs"] if not g.startswith("'")]))
+    bodies = [b] + fb.closures_of(b)
+    for bb in bodies:
+        for bi, t in bb.calls():
+            n = callee_name(t["f"], fb)
+            if n.endswith("Argument::new_debug") or n.endswith("Argument::new_display"):
+                tys.append((n.rsplit("::", 1)[-1], [g for g in t["f"]["gargs"] if not g.startswith("'")]))
     R.check(tys == [("new_debug", ["std::string::String"])], "embed:quoted_display", "stack values are embedded in emitted source as Debug-quoted Display text (a String), never as a bare token: %s" % tys, b.span)
-    tos = [t for bi, t in b.calls() if callee_name(t["f"], fb) == "alloc::string::ToString::to_string" or callee_name(t["f"], fb).endswith("ToString::to_string")]
+    tos = [t for bb in bodies for bi, t in bb.calls() if callee_name(t["f"], fb) == "alloc::string::ToString::to_string" or callee_name(t["f"], fb).endswith("ToString::to_string")]
     R.check(any("number::num::Num" in g for t in tos for g in t["f"]["gargs"]), "embed:display_of_num", "the embedded text is Num's Display rendering")
 
 
